@@ -136,6 +136,34 @@ def run(out: Outcome) -> None:
                 _, err = construct(cls, {**base, "two_sided_test": bad})
                 if err is None:
                     out.violation(f"{cls}Config(two_sided_test={bad!r}) is accepted", {"class": cls})
+    # every public package is importable as the FIRST frouros import of a process (operability starts with the import statement)
+    import subprocess
+    import sys
+    from common import REPO
+    for mod in ("frouros", "frouros.metrics", "frouros.callbacks", "frouros.callbacks.batch", "frouros.callbacks.streaming", "frouros.datasets", "frouros.datasets.real",
+                "frouros.datasets.synthetic", "frouros.detectors", "frouros.detectors.concept_drift", "frouros.detectors.data_drift", "frouros.detectors.data_drift.batch",
+                "frouros.detectors.data_drift.streaming", "frouros.utils", "frouros.utils.kernels", "frouros.utils.persistence"):
+        r = subprocess.run([sys.executable, "-c", f"import sys; sys.path.insert(0, {str(REPO)!r}); import {mod}"], capture_output=True, text=True, timeout=300)
+        if r.returncode != 0:
+            out.violation(f"`import {mod}` as the first frouros import of a process fails: {r.stderr.strip().splitlines()[-1][:200] if r.stderr.strip() else r.returncode}", {"module": mod})
+        out.case({"first_import": mod})
+    # the documented default path: `Detector()` / `Detector(config=None)` builds its own default configuration (for BOCD also its default model) and is operable
+    for cls in dets.CLASSES:
+        rep = {"class": cls, "config": None}
+        try:
+            det = getattr(cd, cls)()
+            cfg_default = getattr(cd, cls + "Config")()
+        except Exception as e:  # noqa: BLE001
+            out.violation(f"{cls}() / {cls}Config() with every argument at its default raises {type(e).__name__}: {e}", rep)
+            continue
+        np.random.seed(1)
+        for t, x in enumerate(battery(rng, cls, 80)[2 if cls in dets.BINARY_ONLY or cls in dets.UNIT_INTERVAL else 0], 1):
+            try:
+                det.update(value=x)
+            except Exception as e:  # noqa: BLE001
+                out.violation(f"{cls}(): the default configuration raises {type(e).__name__}: {e} at update {t} of an in-domain stream", rep)
+                break
+        out.case({"class": cls, "default_constructor": True})
     # a configuration object of another detector class is a wrong type for `config`
     for cls in dets.CLASSES:
         for other in dets.CLASSES:
